@@ -4,6 +4,8 @@ import (
 	"fmt"
 	"time"
 
+	v1 "k8s.io/api/core/v1"
+
 	"verif/internal/explore"
 	"verif/internal/gen"
 	"verif/internal/oracle"
@@ -125,7 +127,9 @@ func c12CensusClause(rep *explore.Report) {
 	rep.AddStates(int64(len(g.Nodes)), g.Transitions)
 	// status writes that hit a conflict and are retried from the (refreshed or stale) cache
 	faultPhase(rep, "C12", []string{world.FConflict, world.FConflictFresh, world.FErr500, world.FTimeout},
-		func(c *world.Call) bool { return c.Resource == "statefulsets" && c.Sub == "status" }, time.Now().Add(3*time.Minute))
+		func(c *world.Call) bool {
+			return (c.Resource == "statefulsets" && c.Sub == "status") || (c.Resource == "pods" && c.IsWrite() && c.Verb != "patch")
+		}, time.Now().Add(3*time.Minute))
 	rep.Extra["census_fixed_points_checked"] = fixed
 	rep.Extra["census_search_states"] = len(g.Nodes)
 }
@@ -172,6 +176,10 @@ func lagPhases(rep *explore.Report, prop string) {
 		return
 	}
 	lagPhase(rep, prop, 1, 0, time.Now().Add(40*time.Second))
+	if prop == "C03" {
+		// the "live up-to-date pod is never deleted" clause needs a cache two events behind
+		lagPhase(rep, prop, 2, 0, time.Now().Add(60*time.Second))
+	}
 }
 
 func init() {
@@ -202,6 +210,16 @@ func faultPhase(rep *explore.Report, prop string, kinds []string, on func(c *wor
 					sc := gen.Scenario{Spec: gen.Spec{Name: "web", Replicas: 2, Policy: pol, Strategy: gen.RU(0), Limit: 10, Template: h.Tmpl}, Revs: h.Revs, Cur: h.Cur, Cells: cells, StaleStatus: true}
 					seeds = append(seeds, explore.Seed{Label: sc.String(), State: sc.Build(w)})
 				}
+			}
+			// a rollout that is complete but for one Failed / Succeeded / outdated pod
+			dead := func(ph v1.PodPhase) gen.Cell { return gen.Cell{Present: true, Phase: ph, Rev: 0} }
+			for _, cells := range [][]gen.Cell{{dead(v1.PodFailed), gen.ReadyAt(1), gen.Absent}, {gen.ReadyAt(1), dead(v1.PodSucceeded), gen.ReadyAt(1)}, {gen.ReadyAt(0), gen.ReadyAt(0), gen.ReadyAt(1)}, {dead(v1.PodFailed), gen.ReadyAt(1), gen.ReadyAt(1)}} {
+				r := int32(2)
+				if cells[2].Present {
+					r = 3
+				}
+				sc := gen.Scenario{Spec: gen.Spec{Name: "web", Replicas: r, Policy: pol, Strategy: gen.RU(0), Limit: 10, Template: 2}, Revs: []int{1, 2}, Cur: 0, Cells: cells}
+				seeds = append(seeds, explore.Seed{Label: sc.String(), State: sc.Build(w)})
 			}
 		}
 	}
